@@ -55,7 +55,9 @@ var c19Msgs = map[string]string{"A": `{"a":1}`, "B": `{"b":1}`, "C": `{"c":1}`, 
 	"LA": `{"a":1,"pad":"` + strings.Repeat("x", 6000) + `"}`, "LB": `{"b":1,"pad":"` + strings.Repeat("y", 9000) + `"}`}
 
 // P: like A, but the variable it binds is a permanent one (its name ends in '!')
-var c19Pats = map[string]interface{}{"A": M{"a": "?x"}, "B": M{"b": "?y"}, "T": M{"tags": []interface{}{"?t"}}, "P": M{"a": "?id!"}}
+var c19Pats = map[string]interface{}{"A": M{"a": "?x"}, "B": M{"b": "?y"}, "T": M{"tags": []interface{}{"?t"}}, "P": M{"a": "?id!"},
+	// property-variable patterns: K1 matches every one of the messages A, B, C; K2 matches none of them
+	"K1": M{"?k": 1.0}, "K2": M{"?k": 2.0}}
 
 // refPass: the pass conditions, with the most permissive consumption (a step ends at the earliest
 // message after which all its expected outputs have been matched).
@@ -292,7 +294,7 @@ func C19(c *vh.Ctx) {
 	maxSet, maxStream := c.Pick(2, 3), c.Pick(3, 4)
 	c.Bound("output_set_max", maxSet)
 	c.Bound("stream_max", maxStream)
-	c.Rule("sessions of one step with every output set (multiset) of up to the bound over {pattern A, pattern B} x {expected, inverted} x guard {none, accept, reject}, a second family with a pattern that matches one message in several ways (an array variable) with guards that accept all / one of the ways, a family whose patterns bind permanent variables (names ending in '!') under accepting and rejecting guards, a family with emitted lines of 6 and 9 kilobytes (longer than a default read buffer; the whole stream stays below the pipe buffer, because the tool does not drain the output of a subprocess it has stopped listening to), two-step sessions over a reduced set list, also with the stream arriving in two writes, and with its second part arriving three seconds late while every step's timeout is 0.3 s (for the verdict those lines never arrive; a tool that gives no verdict for 30 s although its timeouts are below a second is reported too); every stream up to the bound over {A, B, C, a non-JSON noise line} including repetitions; the sessions with short streams also written as session files (documented fields) and loaded as cmd/mexpect loads them; the tool drives a scripted subprocess that prints the stream; oracle: the tool may pass only if the reference pass conditions hold (most permissive consumption). Cases the reference fails run with a short timeout (which can only turn pass into fail). non-trivial = reference says pass.")
+	c.Rule("sessions of one step with every output set (multiset) of up to the bound over {pattern A, pattern B} x {expected, inverted} x guard {none, accept, reject}, a second family with a pattern that matches one message in several ways (an array variable) with guards that accept all / one of the ways, a family with property-variable patterns (one that every message matches, one that none does), a family whose patterns bind permanent variables (names ending in '!') under accepting and rejecting guards, a family with emitted lines of 6 and 9 kilobytes (longer than a default read buffer; the whole stream stays below the pipe buffer, because the tool does not drain the output of a subprocess it has stopped listening to), two-step sessions over a reduced set list, also with the stream arriving in two writes, and with its second part arriving three seconds late while every step's timeout is 0.3 s (for the verdict those lines never arrive; a tool that gives no verdict for 30 s although its timeouts are below a second is reported too); every stream up to the bound over {A, B, C, a non-JSON noise line} including repetitions; the sessions with short streams also written as session files (documented fields) and loaded as cmd/mexpect loads them; the tool drives a scripted subprocess that prints the stream; oracle: the tool may pass only if the reference pass conditions hold (most permissive consumption). Cases the reference fails run with a short timeout (which can only turn pass into fail). non-trivial = reference says pass.")
 	kinds := []expOut{}
 	for _, p := range []string{"A", "B"} {
 		for _, inv := range []bool{false, true} {
@@ -431,6 +433,27 @@ func C19(c *vh.Ctx) {
 				}
 				one(c19Case{Steps: [][]expOut{set}, Stream: st})
 				c.Count("permanent_variable_cases", 1)
+			}
+		}
+	}
+	// patterns with a property variable, one that every message matches and one that none does
+	{
+		kKinds := []expOut{{Pat: "K2"}, {Pat: "K2", Guard: "accept"}, {Pat: "K2", Inverted: true}, {Pat: "K1"}, {Pat: "K1", Guard: "accept"}, {Pat: "A"}}
+		var kSets [][]expOut
+		for i, k1 := range kKinds {
+			kSets = append(kSets, []expOut{k1})
+			for _, k2 := range kKinds[i:] {
+				kSets = append(kSets, []expOut{k1, k2})
+			}
+		}
+		for _, set := range kSets {
+			for _, st := range [][]string{{}, {"A"}, {"B"}, {"A", "B"}, {"noise", "C"}, {"A", "A"}} {
+				idx++
+				if !c.Mine(idx) || c.Expired() {
+					continue
+				}
+				one(c19Case{Steps: [][]expOut{set}, Stream: st})
+				c.Count("property_variable_cases", 1)
 			}
 		}
 	}
